@@ -172,8 +172,8 @@ Proof.
   unfold dispatch_command, cmd_name. intros H Hf Hd j Hj Hn.
   destruct parts as [|first rest]; [inversion H; subst; reflexivity|].
   destruct first; try (inversion H; subst; reflexivity).
-  set (s0 := if mem_name (upper b) write_commands then log_aof s (FBulk b :: rest) else s) in *.
-  assert (H0 : get_db s0 j = get_db s j) by (unfold s0; destruct (mem_name (upper b) write_commands); reflexivity).
+  set (s0 := if mem_name (upper b) write_commands then log_aof_in s dbi (FBulk b :: rest) else s) in *.
+  assert (H0 : get_db s0 j = get_db s j) by (unfold s0; destruct (mem_name (upper b) write_commands); [unfold log_aof_in; destruct (same_db _ _)|]; reflexivity).
   rewrite <- H0. clear H0.
   destruct (beq (upper b) (bs "PING")); [inversion H; subst; reflexivity|].
   destruct (beq (upper b) (bs "ECHO")); [inversion H; subst; reflexivity|].
@@ -206,14 +206,15 @@ Proof.
 Qed.
 
 (** the queued commands of an EXEC are all run against the one database *)
-Lemma exec_queue_frame now dbi : forall q s acc reps s',
-  exec_queue now s dbi q acc = (reps, s') -> 0 <= dbi ->
-  forallb (fun parts => negb (beq (cmd_name parts) (bs "FLUSHALL"))) q = true ->
+Lemma exec_queue_frame now c dbi : forall q s acc reps s',
+  exec_queue now s c dbi q acc = (reps, s') -> 0 <= dbi ->
+  forallb (fun parts => negb (beq (cmd_name parts) (bs "FLUSHALL")) && negb (beq (queued_name parts) (bs "SELECT"))) q = true ->
   forall j, 0 <= j -> j <> dbi -> get_db s' j = get_db s j.
 Proof.
   induction q as [|parts q IH]; intros s acc reps s' H Hd Hq j Hj Hn; cbn [exec_queue] in H.
   - inversion H; subst; reflexivity.
-  - cbn [forallb] in Hq. apply andb_prop in Hq as [Hq1 Hq2]. apply negb_true_iff in Hq1.
+  - cbn [forallb] in Hq. apply andb_prop in Hq as [Hq1 Hq2]. apply andb_prop in Hq1 as [Hq1 Hsel].
+    apply negb_true_iff in Hq1, Hsel. rewrite Hsel in H.
     destruct (normal_command now s 0 dbi parts None) as [rep s1] eqn:E.
     rewrite (IH _ _ _ _ H Hd Hq2 j Hj Hn). eapply normal_command_frame; eauto.
 Qed.
@@ -223,7 +224,7 @@ Qed.
 Lemma select_spec now s c dbi a oracle cn :
   zlookup c (s_conns s) = Some cn ->
   let s1 := lazy_expire now s dbi (bs "SELECT") [FBulk (bs "SELECT"); FBulk a] in
-  let s0 := if mem_name (bs "SELECT") write_commands then log_aof s1 [FBulk (bs "SELECT"); FBulk a] else s1 in
+  let s0 := if mem_name (bs "SELECT") write_commands then log_aof_in s1 dbi [FBulk (bs "SELECT"); FBulk a] else s1 in
   normal_command now s c dbi [FBulk (bs "SELECT"); FBulk a] oracle =
     match parse_usize a with
     | Some n => if 16 <=? n then (r_err, s0)
@@ -239,7 +240,8 @@ Proof.
   change (beq (bs "SELECT") (bs "SELECT")) with true. cbv iota.
   fold s1. fold s0. destruct (parse_usize a); [|reflexivity]. destruct (16 <=? z); [reflexivity|].
   assert (Hc0 : zlookup c (s_conns s0) = Some cn).
-  { unfold s0. destruct (mem_name (bs "SELECT") write_commands); cbn [log_aof s_conns];
+  { unfold s0. destruct (mem_name (bs "SELECT") write_commands);
+      [unfold log_aof_in; destruct (same_db _ _)|]; cbn [log_aof s_conns];
       unfold s1; rewrite (proj1 (lazy_expire_rest _ _ _ _ _)); exact Hc. }
   rewrite Hc0. reflexivity.
 Qed.
@@ -260,31 +262,48 @@ Qed.
 
 (** every queued command gets exactly one slot of the EXEC reply: an error fills its
     slot and the commands after it still run *)
-Lemma exec_queue_length now dbi : forall q s acc reps s',
-  exec_queue now s dbi q acc = (reps, s') -> length reps = (length acc + length q)%nat.
+Lemma exec_queue_length now c : forall q s dbi acc reps s',
+  exec_queue now s c dbi q acc = (reps, s') -> length reps = (length acc + length q)%nat.
 Proof.
-  induction q as [|parts q IH]; intros s acc reps s' H; cbn [exec_queue] in H.
+  induction q as [|parts q IH]; intros s dbi acc reps s' H; cbn [exec_queue] in H.
   - inversion H; subst. rewrite rev_length. cbn. lia.
-  - destruct (normal_command now s 0 dbi parts None) as [rep s1].
-    rewrite (IH _ _ _ _ H). cbn [length]. lia.
+  - destruct (beq (queued_name parts) (bs "SELECT")).
+    + destruct (normal_command now s c dbi parts None) as [rep s1].
+      rewrite (IH _ _ _ _ _ H). cbn [length]. lia.
+    + destruct (normal_command now s 0 dbi parts None) as [rep s1].
+      rewrite (IH _ _ _ _ _ H). cbn [length]. lia.
 Qed.
 (** ... and the replies are those of running the commands back to back, each in the
     state its predecessors left *)
-Lemma exec_queue_cons now dbi parts q s acc :
-  exec_queue now s dbi (parts :: q) acc =
+Lemma exec_queue_cons now c dbi parts q s acc :
+  beq (queued_name parts) (bs "SELECT") = false ->
+  exec_queue now s c dbi (parts :: q) acc =
   match normal_command now s 0 dbi parts None with
-  | (rep, s1) => exec_queue now s1 dbi q (rep :: acc)
+  | (rep, s1) => exec_queue now s1 c dbi q (rep :: acc)
   end.
-Proof. reflexivity. Qed.
-Lemma exec_queue_acc now dbi : forall q s acc,
-  exec_queue now s dbi q acc =
-  match exec_queue now s dbi q [] with (reps, s') => (rev acc ++ reps, s') end.
+Proof. intros H. cbn [exec_queue]. rewrite H. reflexivity. Qed.
+(** a queued SELECT runs for the connection that sent EXEC, and what follows it runs in the
+    database it selected (1ecc022) *)
+Lemma exec_queue_select now c dbi parts q s acc :
+  beq (queued_name parts) (bs "SELECT") = true ->
+  exec_queue now s c dbi (parts :: q) acc =
+  match normal_command now s c dbi parts None with
+  | (rep, s1) => exec_queue now s1 c (match zlookup c (s_conns s1) with Some cn => c_db cn | None => dbi end) q (rep :: acc)
+  end.
+Proof. intros H. cbn [exec_queue]. rewrite H. reflexivity. Qed.
+Lemma exec_queue_acc now c : forall q s dbi acc,
+  exec_queue now s c dbi q acc =
+  match exec_queue now s c dbi q [] with (reps, s') => (rev acc ++ reps, s') end.
 Proof.
-  induction q as [|parts q IH]; intros s acc; cbn [exec_queue].
+  induction q as [|parts q IH]; intros s dbi acc; cbn [exec_queue].
   - cbn [rev]. rewrite app_nil_r. reflexivity.
-  - destruct (normal_command now s 0 dbi parts None) as [rep s1].
-    rewrite (IH s1 (rep :: acc)), (IH s1 [rep]). destruct (exec_queue now s1 dbi q []) as [reps s'].
-    cbn [rev app]. rewrite <- app_assoc. reflexivity.
+  - destruct (beq (queued_name parts) (bs "SELECT")).
+    + destruct (normal_command now s c dbi parts None) as [rep s1].
+      rewrite (IH s1 _ (rep :: acc)), (IH s1 _ [rep]). destruct (exec_queue now s1 c _ q []) as [reps s'].
+      cbn [rev app]. rewrite <- app_assoc. reflexivity.
+    + destruct (normal_command now s 0 dbi parts None) as [rep s1].
+      rewrite (IH s1 _ (rep :: acc)), (IH s1 _ [rep]). destruct (exec_queue now s1 c dbi q []) as [reps s'].
+      cbn [rev app]. rewrite <- app_assoc. reflexivity.
 Qed.
 
 Definition authed_or_open (s : server) (cn : conn) : bool :=
@@ -295,21 +314,15 @@ Definition authed_or_open (s : server) (cn : conn) : bool :=
 Lemma queue_inert now s c cn nm rest oracle :
   zlookup c (s_conns s) = Some cn -> authed_or_open s cn = true -> c_intx cn = true ->
   let command := upper (trim nm) in
-  mem_name command tx_not_queued = false -> beq command (bs "AUTH") = false ->
+  mem_name command tx_not_queued = false ->
   process_frame now s c (FArray (FBulk nm :: rest)) oracle =
     (FSimple (bs "QUEUED"),
      set_conn s c (with_tx cn true (c_queue cn ++ [FBulk nm :: rest]) (c_watched cn))).
 Proof.
-  intros Hc Ha Hi command Hq Hau. unfold process_frame. rewrite Hc.
+  intros Hc Ha Hi command Hq. unfold process_frame. rewrite Hc.
   assert (Hg : (match s_password s with Some _ => true | None => false end) && negb (c_auth cn) = false).
   { unfold authed_or_open in Ha. destruct (s_password s); [rewrite Ha|]; reflexivity. }
-  rewrite Hg. fold command.
-  assert (Hm : forall x, bmem x tx_not_queued = true -> beq command x = false).
-  { intros x Hx. destruct (beq command x) eqn:E; [|reflexivity]. apply beq_eq in E. subst x.
-    unfold mem_name in Hq. congruence. }
-  rewrite (Hm (bs "MULTI") eq_refl), (Hm (bs "EXEC") eq_refl), (Hm (bs "DISCARD") eq_refl),
-          (Hm (bs "WATCH") eq_refl), (Hm (bs "UNWATCH") eq_refl), Hau, Hi.
-  unfold mem_name in *. rewrite Hq. reflexivity.
+  rewrite Hg. fold command. rewrite Hi. unfold mem_name in *. rewrite Hq. reflexivity.
 Qed.
 
 (** DISCARD (and EXEC, below) forget the queue and the watched keys; the data is untouched *)
@@ -321,6 +334,7 @@ Proof.
   assert (Hg : (match s_password s with Some _ => true | None => false end) && negb (c_auth cn) = false).
   { unfold authed_or_open in Ha. destruct (s_password s); [rewrite Ha|]; reflexivity. }
   rewrite Hg. change (upper (trim (bs "DISCARD"))) with (bs "DISCARD").
+  change (mem_name (bs "DISCARD") tx_not_queued) with true. rewrite andb_false_r.
   change (beq (bs "DISCARD") (bs "MULTI")) with false. change (beq (bs "DISCARD") (bs "EXEC")) with false.
   change (beq (bs "DISCARD") (bs "DISCARD")) with true. cbv iota. rewrite Hi. reflexivity.
 Qed.
@@ -330,9 +344,9 @@ Qed.
 Lemma exec_spec now s c cn :
   c_intx cn = true ->
   h_exec now s c cn =
-    if existsb (fun kb => was_modified_since now s (c_db cn) (fst kb) (snd kb)) (c_watched cn)
+    if watch_violated now s cn
     then (FNullArray, set_conn s c (clear_tx cn))
-    else match exec_queue now (set_conn s c (clear_tx cn)) (c_db cn) (c_queue cn) [] with
+    else match exec_queue now (set_conn s c (clear_tx cn)) c (c_db cn) (c_queue cn) [] with
          | (reps, s2) => (FArray reps, s2) end.
 Proof. intros Hi. unfold h_exec. rewrite Hi. reflexivity. Qed.
 
@@ -344,8 +358,8 @@ Proof.
   unfold dispatch_command. intros H c' Hn H0.
   destruct parts as [|first rest]; [inversion H; subst; reflexivity|].
   destruct first; try (inversion H; subst; reflexivity).
-  set (s0 := if mem_name (upper b) write_commands then log_aof s (FBulk b :: rest) else s) in *.
-  assert (Hs0 : s_conns s0 = s_conns s) by (unfold s0; destruct (mem_name (upper b) write_commands); reflexivity).
+  set (s0 := if mem_name (upper b) write_commands then log_aof_in s dbi (FBulk b :: rest) else s) in *.
+  assert (Hs0 : s_conns s0 = s_conns s) by (unfold s0; destruct (mem_name (upper b) write_commands); [unfold log_aof_in; destruct (same_db _ _)|]; reflexivity).
   rewrite <- Hs0. clear Hs0.
   destruct (beq (upper b) (bs "PING")); [inversion H; subst; reflexivity|].
   destruct (beq (upper b) (bs "ECHO")); [inversion H; subst; reflexivity|].
@@ -526,26 +540,26 @@ Qed.
 
 (** EXEC with a modified watched key: nil, nothing executed, only the issuing
     connection's transaction state changes *)
-Lemma exec_aborts now s c cn k b :
-  c_intx cn = true -> In (k, b) (c_watched cn) -> was_modified_since now s (c_db cn) k b = true ->
+Lemma exec_aborts now s c cn dbw k b :
+  c_intx cn = true -> In (wkey dbw k, b) (c_watched cn) -> was_modified_since now s dbw k b = true ->
   h_exec now s c cn = (FNullArray, set_conn s c (clear_tx cn)).
 Proof.
-  intros Hi Hin Hm. rewrite exec_spec by exact Hi.
+  intros Hi Hin Hm. rewrite exec_spec by exact Hi. unfold watch_violated.
   replace (existsb _ (c_watched cn)) with true; [reflexivity|].
-  symmetry. apply existsb_exists. exists (k, b). split; [exact Hin|exact Hm].
+  symmetry. apply existsb_exists. exists (wkey dbw k, b). split; [exact Hin|exact Hm].
 Qed.
 (** ... and with no watched key modified it runs the queue *)
 Lemma exec_runs now s c cn :
   c_intx cn = true ->
-  (forall k b, In (k, b) (c_watched cn) -> was_modified_since now s (c_db cn) k b = false) ->
+  (forall w b, In (w, b) (c_watched cn) -> was_modified_since now s (wkey_db w) (wkey_key w) b = false) ->
   h_exec now s c cn =
-    match exec_queue now (set_conn s c (clear_tx cn)) (c_db cn) (c_queue cn) [] with
+    match exec_queue now (set_conn s c (clear_tx cn)) c (c_db cn) (c_queue cn) [] with
     | (reps, s2) => (FArray reps, s2) end.
 Proof.
-  intros Hi Hn. rewrite exec_spec by exact Hi.
+  intros Hi Hn. rewrite exec_spec by exact Hi. unfold watch_violated.
   replace (existsb _ (c_watched cn)) with false; [reflexivity|].
-  symmetry. apply not_true_is_false. intros Hc. apply existsb_exists in Hc as ([k b] & Hin & Hm).
-  cbn [fst snd] in Hm. rewrite (Hn k b Hin) in Hm. discriminate.
+  symmetry. apply not_true_is_false. intros Hc. apply existsb_exists in Hc as ([w b] & Hin & Hm).
+  cbn [fst snd] in Hm. rewrite (Hn w b Hin) in Hm. discriminate.
 Qed.
 
 (** ---- table-driven obligations over the generated census of engine.rs ---- *)
@@ -561,7 +575,8 @@ Definition mutating_engine_fns : list bytes :=
    bs "lpush"; bs "rpush"; bs "lpop"; bs "rpop"; bs "lset"; bs "ltrim"; bs "lrem";
    bs "sadd"; bs "srem"; bs "spop"; bs "hset"; bs "hdel"; bs "hincrby";
    bs "zadd"; bs "zrem"; bs "zincrby"; bs "xadd"; bs "xadd_with_id"; bs "xtrim"; bs "xdel";
-   bs "mark_key_modified"].        (* ed8ba04: records a change the consumer-group handlers made behind the Arc *)
+   (* ed8ba04: changes made to a stream's consumer groups outside the engine are recorded through this *)
+   bs "mark_key_modified"].
 Lemma every_mutating_fn_marks :
   forallb (fun f => 1 <=? census_marks f) mutating_engine_fns = true.
 Proof. vm_compute. reflexivity. Qed.
@@ -575,13 +590,15 @@ Lemma non_mutating_fns_do_not_mark :
 Proof. vm_compute. reflexivity. Qed.
 
 (** ================= C07: EXEC = the queued commands sent back to back ================= *)
-(** a queued command, as MULTI accepts it: first element a bulk string, not transaction
-    control, not AUTH; and not SELECT (known class select-in-multi) *)
+(** a queued command whose execution at EXEC goes through process_normal_command with the
+    placeholder connection id 0: first element a bulk string, not transaction control, not
+    AUTH and not SELECT (those two run for the connection that sent EXEC, see
+    [exec_queue_select]) *)
 Definition plain_queued (parts : list frame) : bool :=
   match parts with
   | FBulk nm :: _ =>
       negb (mem_name (upper (trim nm)) tx_not_queued) && negb (beq (upper (trim nm)) (bs "AUTH"))
-      && negb (beq (upper nm) (bs "SELECT"))
+      && negb (beq (upper nm) (bs "SELECT")) && negb (beq (upper (trim nm)) (bs "SELECT"))
   | _ => false
   end.
 
@@ -602,7 +619,7 @@ Lemma process_frame_plain now s c cn parts :
 Proof.
   intros Hc Ha Hi Hp. unfold plain_queued in Hp. destruct parts as [|first rest]; [discriminate|].
   destruct first; try discriminate.
-  apply andb_prop in Hp as [Hp Hsel]. apply andb_prop in Hp as [Hq Hau].
+  apply andb_prop in Hp as [Hp Hsel2]. apply andb_prop in Hp as [Hp Hsel]. apply andb_prop in Hp as [Hq Hau].
   apply negb_true_iff in Hq, Hau, Hsel.
   unfold process_frame. rewrite Hc.
   assert (Hg : (match s_password s with Some _ => true | None => false end) && negb (c_auth cn) = false).
@@ -611,8 +628,9 @@ Proof.
   assert (Hm : forall x, bmem x tx_not_queued = true -> beq (upper (trim b)) x = false).
   { intros x Hx. destruct (beq (upper (trim b)) x) eqn:E; [|reflexivity]. apply beq_eq in E. subst x.
     unfold mem_name in Hq. congruence. }
+  rewrite Hi. cbn [andb].
   rewrite (Hm (bs "MULTI") eq_refl), (Hm (bs "EXEC") eq_refl), (Hm (bs "DISCARD") eq_refl),
-          (Hm (bs "WATCH") eq_refl), (Hm (bs "UNWATCH") eq_refl), Hau, Hi. cbn [andb].
+          (Hm (bs "WATCH") eq_refl), (Hm (bs "UNWATCH") eq_refl), Hau.
   apply conn_id_irrelevant. unfold cmd_name. exact Hsel.
 Qed.
 
@@ -623,8 +641,8 @@ Proof.
     revert H. unfold dispatch_command.
     destruct parts as [|first rest]; [intros H; inversion H; reflexivity|].
     destruct first; try (intros H; inversion H; reflexivity).
-    set (s0 := if mem_name (upper b) write_commands then log_aof s (FBulk b :: rest) else s).
-    assert (Hp0 : s_password s0 = s_password s) by (unfold s0; destruct (mem_name (upper b) write_commands); reflexivity).
+    set (s0 := if mem_name (upper b) write_commands then log_aof_in s dbi (FBulk b :: rest) else s).
+    assert (Hp0 : s_password s0 = s_password s) by (unfold s0; destruct (mem_name (upper b) write_commands); [unfold log_aof_in; destruct (same_db _ _)|]; reflexivity).
     rewrite <- Hp0. clear Hp0.
     destruct (beq (upper b) (bs "PING")); [intros H; inversion H; reflexivity|].
     destruct (beq (upper b) (bs "ECHO")); [intros H; inversion H; reflexivity|].
@@ -664,11 +682,14 @@ Qed.
 Theorem exec_is_back_to_back now c : forall q s cn acc,
   c <> 0 -> zlookup c (s_conns s) = Some cn -> authed_or_open s cn = true -> c_intx cn = false ->
   forallb plain_queued q = true ->
-  exec_queue now s (c_db cn) q acc = direct_run now s c q acc.
+  exec_queue now s c (c_db cn) q acc = direct_run now s c q acc.
 Proof.
   induction q as [|parts q IH]; intros s cn acc Hc Hz Ha Hi Hq; [reflexivity|].
   cbn [forallb] in Hq. apply andb_prop in Hq as [Hp Hq].
-  cbn [exec_queue direct_run]. rewrite (process_frame_plain now s c cn parts Hz Ha Hi Hp).
+  assert (Hsel : beq (queued_name parts) (bs "SELECT") = false).
+  { unfold plain_queued in Hp. destruct parts as [|[] ?]; try discriminate.
+    apply andb_prop in Hp as [_ Hp]. apply negb_true_iff in Hp. exact Hp. }
+  cbn [exec_queue direct_run]. rewrite Hsel. rewrite (process_frame_plain now s c cn parts Hz Ha Hi Hp).
   destruct (normal_command now s 0 (c_db cn) parts None) as [rep s'] eqn:E.
   destruct (normal_command_0_keeps now s (c_db cn) parts rep s' c cn E Hc Hz) as [Hz' Hpw].
   apply IH; try assumption. unfold authed_or_open in *. rewrite Hpw. exact Ha.
